@@ -124,12 +124,17 @@ func c10Gen(c *engine.C) engine.Case {
 	default:
 		// method count around the largeClass threshold, with getters/setters mixed in
 		count := []int{1, 19, 20, 21}[c.Choose(4, "plain-methods")]
-		gs := []int{0, 2}[c.Choose(2, "getters-mixed-in")]
+		gs := []int{0, 2, 4}[c.Choose(3, "getters-mixed-in")]
 		for i := 0; i < count; i++ {
 			add(&jg.Method{Mods: []string{"public"}, Ret: "void", Name: fmt.Sprintf("work%d", i), Body: filler(1, "")}, &c10Meta{})
 			if i == 0 && gs > 0 {
 				add(&jg.Method{Mods: []string{"public"}, Ret: "int", Name: "getN", Body: []jg.Stmt{jg.St(jg.T("return n;"))}}, &c10Meta{})
 				add(&jg.Method{Mods: []string{"public"}, Ret: "void", Name: "setN", Params: []jg.Param{{Type: "int", Name: "v"}}, Body: []jg.Stmt{jg.St(jg.T("n = v;"))}}, &c10Meta{})
+			}
+			if i == 0 && gs > 2 {
+				// accessors whose whole name is the prefix (Supplier#get, List#set)
+				add(&jg.Method{Mods: []string{"public"}, Ret: "int", Name: "get", Body: []jg.Stmt{jg.St(jg.T("return n;"))}}, &c10Meta{})
+				add(&jg.Method{Mods: []string{"public"}, Ret: "void", Name: "set", Params: []jg.Param{{Type: "int", Name: "v"}}, Body: []jg.Stmt{jg.St(jg.T("n = v;"))}}, &c10Meta{})
 			}
 		}
 		// smelly methods may carry accessor-style names (get*/set*): thresholds apply to them all the same
